@@ -358,6 +358,11 @@ def m_float(x=0.0):
 
 
 def m_bool(x=False):
+    # bool() of a symbolic truth value stays symbolic (no fork): the proxy behaves as the bool it denotes
+    if _isinstance(x, SBool):
+        return x
+    if _isinstance(x, SInt):
+        return x != 0
     return True if x else False
 
 
